@@ -151,8 +151,8 @@ func runC12(cfg *config, res *monitor.Result) {
 							l := scratch.Mutable(dfd).List()
 							for k := 1 + r.Intn(3); k > 0; k-- {
 								if dfd.Kind() == protoreflect.MessageKind {
-									e := l.NewElement()
-									l.Append(e)
+									// empty unless the type has required fields
+									l.Append(protoreflect.ValueOfMessage(minimalComplete(dfd.Message(), 0).ProtoReflect()))
 								} else {
 									l.Append(g.RandomScalarValue(dfd))
 								}
@@ -205,7 +205,7 @@ func runC12(cfg *config, res *monitor.Result) {
 						scratch := dynamicpb.NewMessage(t.md)
 						var dv protoreflect.Value
 						if dfd.Kind() == protoreflect.MessageKind {
-							dv = scratch.NewField(dfd)
+							dv = protoreflect.ValueOfMessage(minimalComplete(dfd.Message(), 0).ProtoReflect())
 						} else {
 							dv = g.RandomScalarValue(dfd)
 						}
